@@ -71,6 +71,15 @@ def gen_case(rng, i):
             queue[3] = [e for e in queue[3] if False] if False else queue[3]
         else:
             ops.append(f"deliver {rng.choice([5, 6])} {rng.randrange(nev)}" if nev else "view 6")
+    # an evicted client whose application still holds the Welcome value it joined with retries accept /
+    # decline with it (a UI retry, a restored backup of the app's own state): nothing may come of it
+    for j in sorted(removed):
+        if j in joined and rng.random() < 0.8:
+            while queue[j]:
+                ops.append(f"deliver {j} {queue[j].pop(0)}")
+            ops.append(f"accept {j} {w_of[j]}" + rng.choice(["", " held", " held"]))
+            if nev:
+                ops.append(f"deliver {j} {rng.randrange(nev)}")
     ops += [f"audit {j}" for j in range(NCLIENTS)]
     order = list(range(NCLIENTS)); rng.shuffle(order)
     for j in order:
@@ -254,6 +263,7 @@ def oracle(cases):
     for c in cases:
         sent = {}             # mid -> (g, members at send time)
         evicted_seen = set()  # (client, g): the client itself has processed its removal (view shows state i after a commit)
+        accepted_w = set()    # (client, w): invitations the client has accepted
         ever_member = set()
         for k, (op, out) in enumerate(zip(c["ops"], c["impl"])):
             t = op.split(); res, view = split(out)
@@ -272,6 +282,16 @@ def oracle(cases):
                         fail(c, k, "non-member-can-send", f"client {t[1]} is not in the member list {sorted(mem)} of the state it sent from")
                 elif (int(t[1]), g) in evicted_seen:
                     stats["sends_after_eviction"] += 1
+            if t[0] == "accept" and res == "ok":
+                if (t[1], t[2]) in accepted_w:
+                    back = [g for (j, g) in evicted_seen if j == int(t[1]) and f"G{g}:a:" in view]
+                    if back:
+                        fail(c, k, "evicted-client-rejoins-by-old-welcome", f"client {t[1]} had processed its own removal from group {back[0]}; accepting the invitation it had already accepted makes the group Active for it again")
+                accepted_w.add((t[1], t[2]))
+            if t[0] == "deliver" and res.startswith("app"):
+                for (j, g) in evicted_seen:
+                    if j == int(t[1]) and f"G{g}:i:" not in view and f"G{g}:" in view:
+                        fail(c, k, "evicted-client-can-read", f"client {t[1]} has processed its own removal from group {g} and process_message still returns a message")
             if t[0] == "deliver" and res == "commit":
                 for m in re.finditer(r"G(\d+):i:", view):
                     evicted_seen.add((int(t[1]), int(m.group(1))))
